@@ -22,7 +22,7 @@ NPTS = 25
 
 
 def floors(tier):
-    return {"points_checked": 400, "points_generic": 200, "points_passed_as_non_contiguous_view": 300, "points_checked_right_after_a_call_with_an_integer_array": 500, "solver_runs_with_gradient_scaler": 8, "points_within_1e-7_of_a_cosine_zero": 20, "points_at_the_double_nearest_to_a_cosine_zero": 15, "points_checked_after_solver_runs": 250, "solver_runs_on_exported_functions": 20, "history_calls_judged": 1500, "history_calls_with_the_point_given_as_list_or_tuple": 200, "history_calls_through_one_overwritten_array": 700, "calls_at_non_finite_points": 100, "__nontrivial__": 40}
+    return {"points_checked": 400, "points_generic": 200, "points_passed_as_non_contiguous_view": 300, "points_checked_right_after_a_call_with_an_integer_array": 500, "solver_runs_with_gradient_scaler": 8, "points_within_1e-7_of_a_cosine_zero": 20, "points_at_the_double_nearest_to_a_cosine_zero": 15, "points_checked_after_solver_runs": 250, "solver_runs_on_exported_functions": 20, "history_calls_judged": 1500, "history_calls_with_the_point_given_as_list_or_tuple": 200, "history_calls_through_one_overwritten_array": 700, "calls_at_non_finite_points": 100, "calls_after_an_unusual_first_call_judged": 60, "__nontrivial__": 40}
 
 
 def cases(tier, seed):
@@ -45,6 +45,88 @@ def cases(tier, seed):
                 continue
             for r in range(3 if tier == "quick" else 60):
                 yield {"name": name, "n": n, "seed": subseed("C19h", seed, name, n, r) % (2**31), "kind": "history"}
+    styles = ("complex", "complex_step", "int", "float32", "list", "longdouble", "bool")
+    k = 0
+    for name in NAMES:
+        for n in ((2, 5) if tier == "quick" else (1, 2, 3, 4, 5, 8, 12)):
+            for st in (styles[k % 7], styles[(k + 3) % 7]) if tier == "quick" else styles:
+                if name in ("rosenbrock", "beale") and n < 2:
+                    continue
+                yield {"name": name, "n": n, "seed": subseed("C19f", seed, name, n, st) % (2**31), "kind": "first_call", "style": st}
+            k += 1
+
+
+_FIRST_CALL_CODE = r"""
+import json, sys
+import numpy as np
+import lbfgsb
+name, n, style, pts = json.loads(sys.stdin.read())
+f, g = getattr(lbfgsb, name), getattr(lbfgsb, name + "_grad")
+x0 = np.array([float.fromhex(v) for v in pts[0]])
+first = {"complex": x0 + 0j, "complex_step": x0 + 1e-20j * np.eye(len(x0))[0], "int": np.round(x0).astype(int), "float32": x0.astype(np.float32),
+         "list": list(x0), "longdouble": x0.astype(np.longdouble), "bool": x0 > 0}[style]
+for fn in (f, g):
+    try:
+        with np.errstate(all="ignore"):
+            fn(first)
+    except Exception:
+        pass
+res = []
+for p in pts:
+    x = np.array([float.fromhex(v) for v in p])
+    with np.errstate(all="ignore"):
+        v, gr = f(x.copy()), g(x.copy())
+    res.append([type(v).__name__, str(getattr(v, "dtype", "")), list(np.shape(v)), complex(v).real.hex(), complex(v).imag != 0,
+                type(gr).__name__, str(getattr(gr, "dtype", "")), list(np.shape(gr)), [float(np.real(t)).hex() for t in np.ravel(gr)]])
+json.dump(res, sys.stdout)
+"""
+
+
+def run_first_call(spec, out):
+    """A brand-new interpreter whose very first call of the exported function and gradient, at this dimension, is made with another kind of
+    argument (complex as in complex-step differentiation, integer, single / extended precision, a list, booleans); the float64 calls that
+    follow must return what they return in this (long-lived) worker process: a real scalar and a real float64 array of the shape of x."""
+    import json
+    import os
+    import subprocess
+    import sys
+
+    import lbfgsb
+
+    from .. import common
+
+    name, n, style = spec["name"], spec["n"], spec["style"]
+    f, g = getattr(lbfgsb, name), getattr(lbfgsb, name + "_grad")
+    rng = np.random.default_rng(spec["seed"])
+    pts = [rng.uniform(-4, 4, n) for _ in range(4)]
+    env = dict(os.environ)
+    env["PYTHONPATH"] = common.REPO
+    p = subprocess.run([sys.executable, "-c", _FIRST_CALL_CODE], input=json.dumps([name, n, style, [[float(v).hex() for v in q] for q in pts]]),
+                       capture_output=True, text=True, env=env, timeout=300)
+    out.count("fresh_interpreters_started_with_an_unusual_first_call")
+    if p.returncode != 0:
+        out.violate("call_raised", f"{name} n={n}: in a fresh interpreter whose first call used a {style} argument, the float64 calls failed: {p.stderr[-300:]}",
+                    name=name, what="first_call")
+        return out
+    for q, r in zip(pts, json.loads(p.stdout)):
+        out.count("calls_after_an_unusual_first_call_judged")
+        with np.errstate(all="ignore"):
+            v, gr = f(q.copy()), np.asarray(g(q.copy()))
+        tv, dv, shv, hv, imag, tg, dg, shg, hg = r
+        ok_v = (not imag) and "complex" not in dv and "complex" not in tv and shv == [] and hv == float(v).hex()
+        ok_g = "complex" not in dg and shg == list(q.shape) and hg == [float(t).hex() for t in np.ravel(gr)] and dg == str(gr.dtype)
+        if not ok_v:
+            out.violate("value_not_real_scalar", f"{name} n={n}: after a first call with a {style} argument in a fresh interpreter, {name}({q.tolist()}) returns "
+                        f"a {tv} of dtype {dv!r}, shape {shv} (here: {type(v).__name__} {float(v)!r})", name=name, what="first_call")
+            break
+        if not ok_g:
+            out.violate("grad_shape_or_type", f"{name}_grad n={n}: after a first call with a {style} argument in a fresh interpreter, the gradient at {q.tolist()} "
+                        f"is a {tg} of dtype {dg!r}, shape {shg} (here: dtype {gr.dtype}, shape {list(gr.shape)}), or its values differ", name=name, what="first_call")
+            break
+    out.nontrivial = True
+    out.key = f"first/{name}/{n}/{style}"
+    out.sample = dict(spec=spec)
+    return out
 
 
 def run_after_solver(spec, out):
@@ -238,6 +320,8 @@ def run(spec):
         return run_after_solver(spec, out)
     if spec["kind"] == "history":
         return run_history(spec, out)
+    if spec["kind"] == "first_call":
+        return run_first_call(spec, out)
     name, n = spec["name"], spec["n"]
     f = getattr(lbfgsb, name)
     g = getattr(lbfgsb, name + "_grad")
